@@ -24,7 +24,7 @@ import numpy as np
 from vcommon import tlc, require_tlc_ok, workdir, WORK, SPEC, MachineryError
 
 NOEND = -99
-OP_PROPERTY = {"UpdateRange": "C08", "Fdwra": "C06", "TdReject": "C13", "ManualReject": "C05", "Init": "C08"}
+OP_PROPERTY = {"UpdateRange": "C08", "Fdwra": "C06", "TdReject": "C13", "ManualReject": "C05", "ManualSession": "C05", "Init": "C08"}
 
 AZIMUTHS = [0.0, 45.0, 90.0, 135.0]
 
@@ -138,9 +138,9 @@ def export_graph(cfg_text, name, env, workers=16, timeout=1500, coverage=False):
 
 
 def cfg_text(na, nw, nf, alphabet, ranges, nset, maxits, init, sthr="SThrHalf", export=True, invariants=(), props=(),
-             tdmasks="AllMasks", dfree=False, nxt="Next"):
+             tdmasks="AllMasks", dfree=False, nxt="Next", boxes="NoBoxes"):
     lines = ["CONSTANTS", f"  NA = {na}", f"  NW = {nw}", f"  NF = {nf}", f"  Alphabet <- {alphabet}",
-             f"  Ranges <- {ranges}", f"  NSet <- {nset}", f"  MaxIts <- {maxits}", f"  TdMasks <- {tdmasks}",
+             f"  Ranges <- {ranges}", f"  NSet <- {nset}", f"  MaxIts <- {maxits}", f"  TdMasks <- {tdmasks}", f"  Boxes <- {boxes}",
              f"  InitSel <- {init}", f"  SThr <- {sthr}", f"  DFree = {'TRUE' if dfree else 'FALSE'}",
              f"  Export = {'TRUE' if export else 'FALSE'}",
              "INIT Init", f"NEXT {nxt}", "VIEW View", "CHECK_DEADLOCK FALSE"]
@@ -215,6 +215,8 @@ class Real:
                 i.valid_window_boolean_mask[w - 1] = False
                 i.valid_peak_boolean_mask[w - 1] = False
             return None
+        if op == "ManualSession":
+            return self.manual_session(obj, a)
         if op == "Fdwra":
             r = (inst.hz(a["r"][0]), inst.hz(a["r"][1]))
             import warnings
@@ -225,6 +227,44 @@ class Real:
                     distribution_fn=inst.dist_f, distribution_mc=inst.dist_a,
                     search_range_in_hz=r, find_peaks_kwargs={} if a["kw"] else None)
         raise MachineryError(f"unknown op {op}")
+
+
+def _manual_session(self, obj, a):
+    """drive the interactive manual_window_rejection: the analyst draws the box a['b'], then clicks 'continue'"""
+    import warnings
+    import matplotlib
+    matplotlib.use("Agg")
+    import matplotlib.pyplot as plt
+    import hvsrpy.window_rejection as wr
+    from hvsrpy.interact import _relative_to_absolute
+    inst = self.inst
+    fl, fh, al, ah = a["b"]
+    amp = (lambda half: (half / 2.0) * inst.ascale) if inst.aenc == "N" else (lambda half: float(np.exp((half / 2.0) / inst.q)))
+    script = [([inst.hz(fl), inst.hz(fh)], [amp(al), amp(ah)]), "continue"]
+    calls = []
+
+    def fake_ginput(fig, ax, **kw):
+        step = script[len(calls)] if len(calls) < len(script) else "continue"
+        calls.append(step)
+        if step == "continue":
+            x = _relative_to_absolute(0.06, ax.get_xlim(), ax.get_xscale())
+            y = _relative_to_absolute(0.94, ax.get_ylim(), ax.get_yscale())
+            return ([x, x], [y, y])
+        return step
+    orig = wr.ginput_session
+    wr.ginput_session = fake_ginput
+    try:
+        with warnings.catch_warnings():
+            warnings.simplefilter("ignore")
+            r = (inst.hz(a["r"][0]), inst.hz(a["r"][1]))
+            wr.manual_window_rejection(obj, distribution_mc=inst.dist_a, distribution_fn=inst.dist_f, search_range_in_hz=r)
+    finally:
+        wr.ginput_session = orig
+        plt.close("all")
+    return None
+
+
+Real.manual_session = _manual_session
 
 
 class Replayer:
@@ -282,7 +322,7 @@ class Replayer:
                 if a["op"] == "Fdwra" and real.inst.fenc != "N":
                     self.stats["skipped_fdwra"] += 1
                     continue
-                if trans_filter is not None and not trans_filter(a):
+                if trans_filter is not None and not trans_filter(a, t):
                     continue
                 o2 = copy.deepcopy(obj)
                 try:
@@ -392,7 +432,7 @@ def strip(t):
 
 def ev_of(e):
     out = dict(op=e["op"], t=e["t"])
-    for k in ("r", "kw", "n", "mi", "S", "a", "it"):
+    for k in ("r", "kw", "n", "mi", "S", "a", "it", "b"):
         if k in e:
             out[k] = e[k]
     return out
@@ -421,7 +461,8 @@ def validate_traces(traces, consts, name, extra_cfg=""):
         json.dump(traces, f)
     cfg = os.path.join(wd, "TraceHvsrObject_run.cfg")
     with open(cfg, "w") as f:
-        f.write("CONSTANTS\n" + consts + ("" if "DFree" in consts else "  DFree = FALSE\n") + "  Export = FALSE\n" +
+        f.write("CONSTANTS\n" + consts + ("" if "DFree" in consts else "  DFree = FALSE\n") + ("" if "Boxes" in consts else "  Boxes <- NoBoxes\n") +
+                "  Export = FALSE\n" +
                 "INIT TraceInit\nNEXT TraceNext\nVIEW TraceView\nCHECK_DEADLOCK FALSE\nCONSTRAINT Accepted\n" + extra_cfg)
     res = tlc("TraceHvsrObject", cfg=cfg[:-4], workers=8, timeout=1200, env={"TRACE_FILE": tf}, workname=f"tlc-{name}")
     if res.error and "TIMEOUT" in res.error:
